@@ -198,6 +198,11 @@ def run_case(ns, mon, c):
         cols_j = ct.im2col(x, k, d, s, p, pv, col_indices=idx)
         img_i, idx2 = ct.col2im(np.array(cols_i, dtype=np.float64), (N, C, H, W), k, d, s, p, return_indices=True)
         img_j = ct.col2im(np.array(cols_i, dtype=np.float64), (N, C, H, W), k, d, s, p, col_indices=idx)
+        # the caller keeps the index arrays and uses them again after col2im has seen them (one set of indices per layer, reused every step)
+        cols_k = ct.im2col(x, k, d, s, p, pv, col_indices=idx)
+        img_k = ct.col2im(np.array(cols_i, dtype=np.float64), (N, C, H, W), k, d, s, p, col_indices=idx)
+        if not (np.array_equal(cols_k, ref_2d) and np.allclose(img_k, img_i, rtol=0, atol=1e-12)):
+            viol.append(V("im2col:indices-protocol:reused-indices", "index arrays returned by im2col give other results once col2im has used them", geometry=geo))
         counters["indices_protocol_checks"] = counters.get("indices_protocol_checks", 0) + 1
         if not (np.array_equal(cols_i, ref_2d) and np.array_equal(cols_j, ref_2d) and np.allclose(img_i, img_j, rtol=0, atol=1e-12)
                 and all(np.array_equal(a_, b_) for a_, b_ in zip(idx, idx2))):
